@@ -256,13 +256,14 @@ package tcp
 // segment without FIN is emitted for this timeout.
 //@ func (*sender).retransmitTimerExpired props C05
 //@   impl congestionControl *renoState
-//@   requires sndOK(s) && renoOf(s) && s.rto >= 0 && 2 <= s.sndSsthresh && s.sndSsthresh <= 1 << 40
+//@   requires sndOK(s) && renoOf(s) && s.rto >= 200000000 && 2 <= s.sndSsthresh && s.sndSsthresh <= 1 << 40
 //@   panics_when true
 //@   ensures (result && s.rto == old(s.rto) && s.sndCwnd == old(s.sndCwnd) && s.outstanding == old(s.outstanding) && ghost(sentNonFin) == old(ghost(sentNonFin)) && ghost(sentFin) == old(ghost(sentFin)))
 //@        || (!result && old(s.rto) >= 60000000000 && s.rto == old(s.rto) && ghost(sentNonFin) == old(ghost(sentNonFin)) && ghost(sentFin) == old(ghost(sentFin)))
 //@        || (result && old(s.rto) < 60000000000 && s.rto == 2 * old(s.rto) && !s.fr.active && s.sndCwnd == 1 && s.sndSsthresh >= 2
 //@            && 0 <= s.outstanding && s.outstanding <= 1 && ghost(sentNonFin) - old(ghost(sentNonFin)) == s.outstanding
 //@            && old(s.resendTimer.state) != timerStateOrphaned)
+//@   ensures s.rto >= 200000000
 //@   modifies s.rto, s.fr.active, s.fr.first, s.fr.last, s.fr.maxCwnd, s.dupAckCount, s.sndSsthresh
 //@   modifies s.sndCwnd, s.outstanding, s.sndNxt, s.writeNext, s.writeList.tail, s.lastSendTime, s.rttMeasureTime, s.maxSentAck
 //@   modifies s.resendTimer.state, s.resendTimer.target, s.resendTimer.runtimeTarget, s.ep.rcv.rcvAcc
